@@ -106,6 +106,22 @@ def check(ctx):
                             bad.append('bit cast of the digest at %s' % f.nloc(n))
                 ctx.ob('C18.L', f, 'the hash is computed from the digest\'s value, not from its object representation', not bad,
                        detail='; '.join(bad), key_detail='hash from representation')
+    # the stored values are compared by the Storage's own operators: compareEqual / compareLessThan either apply == / < to their two
+    # parameters (where the Storage has the operator) or answer a constant (where it has not) - nothing else (no byte comparison, no
+    # detour that a Storage with a coarser == or a non-bool < would not survive)
+    for tu in ctx.tus:
+        for f in tu.fns:
+            if f.skey not in ('anyid_internal_::compareEqual', 'anyid_internal_::compareLessThan') or len(f.params) != 2:
+                continue
+            op = '==' if f.name == 'compareEqual' else '<'
+            try:
+                fm = F.formula(f, {f.params[0]['id']: 'a', f.params[1]['id']: 'b'}, inline=False)
+                ok = fm[0] == 'const' or fm == ('atom', 'a %s b' % op)
+                shown = F.show(fm)
+            except F.Unsupported as e:
+                ok, shown = False, 'not a plain comparison of the two values (%s)' % e
+            ctx.ob('C18.L', f, '%s is the Storage\'s own %s on the two values, or a constant when the Storage has no such operator' % (f.name, op), ok,
+                   detail='extracted: %s' % shown, key_detail='storage operator ' + f.name)
     # digests are compared as what the digester returned: a value-changing conversion on the way to the comparison (e.g. a helper taking
     # std::size_t when the digester returns double) makes operator< coarser than operator==, which still compares the real digests
     NUMERIC = ('IntegralCast', 'FloatingToIntegral', 'IntegralToFloating', 'FloatingCast', 'IntegralToBoolean', 'FloatingToBoolean')
